@@ -213,8 +213,10 @@ def families(args):
                               want_origins=True, role_fn=site_role)
     import c10
     incs = [p for p in ppfamily.include_programs(args.tier, args.seed)
-            if p.label in ('inc/non-ascii', 'inc/nested', 'inc/twice', 'inc/flow-in', 'inc/macro-named', 'inc/search/q/p1-p2')]
-    fam_inc = ppprop.Family('sites-includes', incs, c10.mk_case, ('origin', 'tokens'), want_origins=True)
+            if p.label in ('inc/non-ascii', 'inc/nested', 'inc/twice', 'inc/flow-in', 'inc/macro-named', 'inc/search/q/p1-p2',
+                           'inc/no-final-newline', 'inc/no-final-newline-angle', 'inc/macro-named-no-final-newline', 'inc/nested/crlf')]
+    fam_inc = ppprop.Family('sites-includes', incs, c10.mk_case, ('origin', 'tokens'), want_origins=True,
+                            quirk_roles=[(('macro_named_include_drops_trailing_ws',), 'F11:macro-named-include-drops-the-white-space-after-it', ('tokens',))])
     return [fam_map, fam_sites, fam_inc]
 
 
